@@ -545,6 +545,10 @@ def canaries(chk, prog):
 
 
 def run(chk, prog, tier):
+    # batch estimators without a streaming method (OLEQ, FLAE, QUEST ...): their N-sample arm must produce its rows through estimate() (rule shared with C07;
+    # a vectorised re-implementation that is not twin-proved gets no verdict rather than a silent pass)
+    from props.c07 import rowwise_rule as _rowwise_rule
+    _rowwise_rule(chk, prog)
     from props.c13 import recomputed_rule
     recomputed_rule(chk, prog)
     for key, methods in STREAMING.items():
